@@ -552,3 +552,20 @@ Proof. exact LogqlTemplateProofs.formatted_line_reaches_the_byte_aggregation. Qe
 Print Assumptions bytes_aggregates_see_the_formatted_line.
 Example bytes_aggregates_hyp : forall c, has_column (s_cols (main_init c)) "string" = true /\ has_column (s_cols (main_init c)) "_string" = false.
 Proof. exact LogqlTemplateProofs.formatted_line_hyp. Qed.
+
+From Qryn Require proofs.LogqlMetricUtf8Proofs.
+Import LogqlMetricUtf8Proofs.
+(* ---- bytes_over_time / bytes_rate count BYTES (round 7, seed C08-g: lengthUTF8 for length). What the evaluator reads for
+   lengthUTF8 - the bytes that are no UTF-8 continuation byte - never exceeds the byte count and equals it exactly on the strings
+   without a continuation byte: a statement summing lengthUTF8 under-counts every line with a character outside ASCII *)
+Theorem code_points_never_exceed_bytes : forall s, (utf8_points s <= String.length s)%nat.
+Proof. exact utf8_points_le_length. Qed.
+Print Assumptions code_points_never_exceed_bytes.
+Theorem code_points_equal_bytes_iff_no_continuation_byte : forall s, utf8_points s = String.length s <-> has_cont s = false.
+Proof. exact utf8_points_eq_length_iff. Qed.
+Print Assumptions code_points_equal_bytes_iff_no_continuation_byte.
+Theorem code_points_fall_short_on_multibyte_lines : forall s, has_cont s = true -> (utf8_points s < String.length s)%nat.
+Proof. exact utf8_points_lt_length. Qed.
+Print Assumptions code_points_fall_short_on_multibyte_lines.
+Example code_points_hyp : exists s, has_cont s = true /\ String.length s = 9%nat /\ utf8_points s = 3%nat.
+Proof. eexists. exact utf8_points_japanese. Qed.
